@@ -292,6 +292,17 @@ impl SqliteStore {
         F: AsyncFnOnce(&mut Transaction) -> Result<R, SqliteError>,
     {
         let mut tx_ref = self.tx.lock().await;
+
+        // Verification hook: the slot lock is held from here until this call returns or its
+        // future is dropped (the guard is dropped, and logs, right before the lock is released).
+        #[cfg(p2panda_p2panda_verif)]
+        let _unlocked = VerifEmitOnDrop("sqlite.tx.unlocked");
+        #[cfg(p2panda_p2panda_verif)]
+        {
+            verif_emit("sqlite.tx.locked");
+            p2panda_core::verif::point("sqlite.tx.locked").await;
+        }
+
         let tx = tx_ref.as_mut().ok_or(SqliteError::TransactionMissing)?;
 
         f(tx).await
@@ -512,6 +523,17 @@ fn verif_emit(name: &str) {
         .map(|id| id.to_string())
         .unwrap_or_default();
     p2panda_core::verif::emit(format!("{{\"ev\":\"{name}\",\"task\":\"{task}\"}}"));
+}
+
+/// Verification hook: logs `name` when dropped.
+#[cfg(p2panda_p2panda_verif)]
+struct VerifEmitOnDrop(&'static str);
+
+#[cfg(p2panda_p2panda_verif)]
+impl Drop for VerifEmitOnDrop {
+    fn drop(&mut self) {
+        verif_emit(self.0);
+    }
 }
 
 /// Error when interacting with a SQLite store implementation.
